@@ -12,22 +12,31 @@ tmem = z3.Function("tmem", IV, I, Val, B)      # membership in an immutable sequ
 tidx = z3.Function("tidx", IV, I, Val, I)      # witness index
 
 
+is_seq = z3.Function("is_seq", IV, I, B)       # marker: (items, len) is a sequence under discussion (enables the intro axiom)
+
+
 def tmem_axioms():
     items = z3.Const("it!tm", IV)
     ln = z3.Const("ln!tm", I)
     v = z3.Const("v!tm", Val)
+    i = z3.Const("i!tm", I)
     return [z3.ForAll([items, ln, v],
                       z3.Implies(tmem(items, ln, v),
                                  z3.And(0 <= tidx(items, ln, v), tidx(items, ln, v) < ln,
                                         z3.Select(items, tidx(items, ln, v)) == v)),
-                      patterns=[tmem(items, ln, v)])]
+                      patterns=[tmem(items, ln, v)]),
+            # definition of membership, other direction (only for marked sequences: keeps instantiation local)
+            z3.ForAll([items, ln, i],
+                      z3.Implies(z3.And(is_seq(items, ln), 0 <= i, i < ln), tmem(items, ln, z3.Select(items, i))),
+                      patterns=[z3.MultiPattern(is_seq(items, ln), z3.Select(items, i))])]
 
 
 def tmem_intro(items, ln):
-    """forall i in range: items[i] is a member  (instantiated per concrete sequence)"""
+    """(items, len) is a sequence under discussion: every element in range is a member"""
     i = z3.Const("i!tmi", I)
-    return z3.ForAll([i], z3.Implies(z3.And(0 <= i, i < ln), tmem(items, ln, z3.Select(items, i))),
-                     patterns=[z3.Select(items, i)])
+    return z3.And(is_seq(items, ln),
+                  z3.ForAll([i], z3.Implies(z3.And(0 <= i, i < ln), tmem(items, ln, z3.Select(items, i))),
+                            patterns=[z3.Select(items, i)]))
 
 
 def pure_eval(eng, st: State, expr: ast.expr, bindings: dict[str, SV]):
